@@ -13,6 +13,8 @@ package c06
 
 import (
 	"bytes"
+	"crypto/sha256"
+	"encoding/hex"
 	"errors"
 	"fmt"
 	"io"
@@ -38,6 +40,12 @@ type limitReader struct {
 	reads int
 	bytes int64
 	limit int
+	// hdrLen/hdrAlign select the reads counted per position in hdr: reads of
+	// exactly hdrLen bytes at offsets that are multiples of hdrAlign (the page
+	// headers of a paged file).
+	hdrLen   int
+	hdrAlign int64
+	hdr      map[int64]int
 }
 
 type runaway struct{}
@@ -45,6 +53,12 @@ type runaway struct{}
 func (l *limitReader) ReadAt(p []byte, off int64) (int, error) {
 	l.reads++
 	l.bytes += int64(len(p))
+	if l.hdrAlign > 0 && len(p) == l.hdrLen && off%l.hdrAlign == 0 {
+		if l.hdr == nil {
+			l.hdr = map[int64]int{}
+		}
+		l.hdr[off/l.hdrAlign]++
+	}
 	if l.reads > l.limit {
 		panic(runaway{})
 	}
@@ -78,6 +92,7 @@ type harness struct {
 
 	tarfsAllocMax uint64
 	unclassified  atomic.Int64
+	dumped        atomic.Int64
 }
 
 // fail reports a failure of the property statement on the implementation and
@@ -87,6 +102,20 @@ func (h *harness) fail(class, witness string) {
 		h.unclassified.Add(1)
 	}
 	h.r.Fail(class, witness)
+}
+
+// dumpWitness writes a failing input too large for a line into the output
+// directory (the first 16 of a run) and returns how to name it.
+func (h *harness) dumpWitness(kind string, b []byte) string {
+	sum := sha256.Sum256(b)
+	d := hex.EncodeToString(sum[:])
+	name := kind + "-fail-" + d[:16] + ".bin"
+	if n := h.dumped.Add(1); n <= 16 && h.cfg.OutDir != "" && len(b) <= 64<<20 {
+		if os.WriteFile(filepath.Join(h.cfg.OutDir, name), b, 0o644) == nil {
+			return fmt.Sprintf("sha256:%s,size=%d,file=%s", d, len(b), name)
+		}
+	}
+	return fmt.Sprintf("sha256:%s,size=%d", d, len(b))
 }
 
 // quiet silences the library's logging (malformed inputs make it chatty).
@@ -122,6 +151,7 @@ func Run(cfg hx.Config) error {
 	h.segStream()
 	h.rpmHdrStream()
 	h.bdbStream()
+	h.bdbFanStream()
 	h.ndbStream()
 	return nil
 }
